@@ -17,12 +17,19 @@ import (
 	"github.com/mark3labs/flyt"
 )
 
+func waitDur(ms, us int) time.Duration {
+	return time.Duration(ms)*time.Millisecond + time.Duration(us)*time.Microsecond
+}
+
 // ---- scenario (JSON shapes shared with lean/Driver/FlowFam.lean) ----
 
 type LeafCfg struct {
 	Retryable bool   `json:"retryable"`
 	Budget    int    `json:"budget"`
 	Wait      int    `json:"wait"` // ms
+	// WaitUs (harness only; the model's wait is Wait ms): microseconds added to the configured wait. The observed gap is
+	// judged against the full duration, so a wait that loses its sub-millisecond part on the way shows as a missing wait event.
+	WaitUs int `json:"waitUs,omitempty"`
 	Fb        string `json:"fb"`   // absent | pass | custom
 	PrepS     string `json:"prepS"`
 	ExecS     string `json:"execS"`
@@ -35,6 +42,7 @@ type LeafCfg struct {
 type BatchCfg struct {
 	Budget  int    `json:"budget"`
 	Wait    int    `json:"wait"`
+	WaitUs  int    `json:"waitUs,omitempty"` // see LeafCfg.WaitUs
 	Fb      string `json:"fb"` // pass | custom
 	Conc    int    `json:"conc"`
 	Stop    bool   `json:"stop"`
@@ -555,7 +563,7 @@ func (n *plainRetry) GetMaxRetries() int {
 	}
 	return n.l.cfg.Budget
 }
-func (n *plainRetry) GetWait() time.Duration { return time.Duration(n.l.cfg.Wait) * time.Millisecond }
+func (n *plainRetry) GetWait() time.Duration { return waitDur(n.l.cfg.Wait, n.l.cfg.WaitUs) }
 
 // plainFb: Node + FallbackNode
 type plainFb struct{ plainNode }
@@ -627,7 +635,7 @@ func (n *baseStructFb) ExecFallback(p any, err error) (any, error) { return n.l.
 type baseOverride struct{ baseStruct }
 
 func (n *baseOverride) GetMaxRetries() int     { return n.l.cfg.Budget }
-func (n *baseOverride) GetWait() time.Duration { return time.Duration(n.l.cfg.Wait) * time.Millisecond }
+func (n *baseOverride) GetWait() time.Duration { return waitDur(n.l.cfg.Wait, n.l.cfg.WaitUs) }
 
 // valueNode: a Node implementation used BY VALUE (not through a pointer). valueNode{0} is the zero value of its
 // type — a legal node like any other. A value carries no pointer to its state, so the state is looked up in the
@@ -686,7 +694,7 @@ func (e *runtimeEnv) buildLeaf(id int, cfg *LeafCfg) flyt.Node {
 	rt := &nodeRT{env: e, id: id, visit: -1}
 	e.rts[id] = rt
 	l := &leafImpl{rt0: rt, cfg: cfg}
-	wait := time.Duration(cfg.Wait) * time.Millisecond
+	wait := waitDur(cfg.Wait, cfg.WaitUs)
 	isFunc := cfg.PrepS == "res" || cfg.PrepS == "any" || cfg.ExecS == "res" || cfg.ExecS == "any" ||
 		cfg.PostS == "res" || cfg.PostS == "any"
 	if isFunc {
@@ -956,7 +964,7 @@ func (e *runtimeEnv) buildBatch(id int, cfg *BatchCfg) flyt.Node {
 
 func (e *runtimeEnv) buildBatchWith(b *batchImpl) *flyt.BatchNodeBuilder {
 	cfg, id := b.cfg, b.rt0.id
-	wait := time.Duration(cfg.Wait) * time.Millisecond
+	wait := waitDur(cfg.Wait, cfg.WaitUs)
 	// the batch settings the node is BUILT with: the real ones, or (PrepConf) decoys that the prep callback replaces
 	bConc, bStop := cfg.Conc, cfg.Stop
 	var reconf func()
